@@ -678,7 +678,7 @@ pub fn run_prop<P: Prop>(prop: P, opts: &Opts) -> ! {
                     }
                     let c = (en.produce)(i);
                     let real = eval_case(&*prop, &known, &c, Some(&mut st));
-                    if i % 1024 == 0 {
+                    if (i / jobs) % 1024 == 0 {
                         tick();
                     }
                     if !real.is_empty() {
@@ -916,12 +916,24 @@ pub fn run_prop<P: Prop>(prop: P, opts: &Opts) -> ! {
     if violations.is_empty() && missing.is_empty() {
         if let Ok(bin) = std::env::var("VERIF_SECOND_BIN") {
             if !bin.is_empty() && std::path::Path::new(&bin).exists() {
+                // keep the watchdog quiet while the second build runs (it has its own watchdog)
+                let waiting = Arc::new(AtomicBool::new(true));
+                {
+                    let waiting = waiting.clone();
+                    std::thread::spawn(move || {
+                        while waiting.load(Ordering::Relaxed) {
+                            tick();
+                            std::thread::sleep(std::time::Duration::from_millis(500));
+                        }
+                    });
+                }
                 let out = std::process::Command::new(&bin)
                     .arg(id)
                     .args(["--tier", opts.tier.name(), "--seed", &(opts.seed as i128).to_string(), "--jobs", &opts.jobs.to_string(), "--no-evidence"])
                     .args(opts.cases_override.map(|c| vec!["--cases".to_string(), c.to_string()]).unwrap_or_default())
                     .env_remove("VERIF_SECOND_BIN")
                     .output();
+                waiting.store(false, Ordering::Relaxed);
                 match out {
                     Err(e) => {
                         println!("INCONCLUSIVE: cannot run {bin}: {e}");
